@@ -10,6 +10,7 @@
 
 import hashlib
 import io
+import json
 import os
 import re
 import sqlite3
@@ -70,6 +71,8 @@ QUERIES = [
     ('unnest', "select a1, unnest(a3.split(';'))"),
     ('unnest', 'select a1, unnest(a3)'),
     ('unnest', 'select unnest(a3), a2 where NR > 1 limit 3'),
+    ('unnest', 'select top 2 a1, unnest(a3)'),
+    ('unnest', 'select a2, unnest(a3) limit 4'),
     ('join', 'select * join {J} on a2 == b1'),
     ('join', 'select a1, b.* left join {J} on a2 == b1'),
     ('join', 'select a.*, b2 join {J} on a2 == b1 order by b2'),
@@ -373,7 +376,8 @@ class World(object):
         self.dfA_cells = df_cells(self.dfA)
         self.dfB_cells = df_cells(self.dfB)
         # js arrays live in the driver: each js operation ships a copy and gets the invariant report back
-        self.js_rows = [list(r) for r in rows]
+        # (worlds with list-valued cells ship them as nested arrays: a source cell is part of the source)
+        self.js_rows = json.loads(json.dumps(self.A)) if self.has_list_cells else [list(r) for r in rows]
         self.js_join = [list(r) for r in jrows]
 
     def open_con(self):
